@@ -38,10 +38,24 @@ def spec_for(seed):
     force = {"cap_evals": 1500}
     if rng.random() < 0.5:
         force["hibernation"] = rng.random() < 0.6
+    c = rng.random()
+    if c < 0.1:
+        force.update(objective_kind="nanhole", box=[[-5.0, 5.0], [-5.0, 5.0]], dim=2)     # NaN ties are settled by the SEEDED python generator
+    elif c < 0.2:
+        force["wrappers"] = "cache"
     spec = gen.gen_spec(seed, **force)
     if rng.random() < 0.15:
         spec["random_seed"] = 0          # a falsy seed is still a seed
     return spec
+
+
+def pollute(spec):
+    """an earlier optimisation in the same interpreter: same seed, box and engines, a DIFFERENT objective (only meaningful with use_cache)"""
+    import copy
+    from . import gen
+    p = copy.deepcopy(spec)
+    p["objective"] = gen.gen_objective(random.Random(spec["seed"] + 9), spec["dim"], spec["box"], spec["maximize"], "funnel" if spec["objective"]["kind"] != "funnel" else "sphere")
+    run_once(p, 3)
 
 
 def run_once(spec, scramble):
@@ -96,6 +110,8 @@ def run_repro(ctx, n):
     for s in seeds:
         spec = spec_for(s)
         a = run_once(spec, 12345 + s % 1000)
+        if spec["wrappers"] == "cache":
+            pollute(spec)
         b = run_once(spec, 999 + s % 777)
         inproc[s] = (spec, a, b)
         if a["digest"] != b["digest"]:
